@@ -249,7 +249,9 @@ func main() {
 				}
 			})
 		})
-		ids := []string{"0", "1", "9", "10", "99", "100", "18446744073709551615", "18446744073709551616", "1000000000000000000000000", "1000000000000000000000001", "a", "a-", "-1", "1a", "B"}
+		ids := []string{"0", "1", "9", "10", "99", "100", "18446744073709551615", "18446744073709551616", "1000000000000000000000000", "1000000000000000000000001", "a", "a-", "-1", "1a", "B",
+			// every machine-integer boundary a fast path could use: 2^31, 2^32, 2^53, 2^63 and their neighbours, the smallest and largest 18-, 19- and 20-digit numbers
+			"2147483647", "2147483648", "4294967295", "4294967296", "9007199254740992", "9007199254740993", "999999999999999999", "1000000000000000000", "9223372036854775807", "9223372036854775808", "9223372036854775809", "9999999999999999999", "10000000000000000000"}
 		var lists []string
 		for _, x := range ids {
 			lists = append(lists, x)
